@@ -406,6 +406,13 @@ class World:
         if probs:
             fs.append(Finding("C09", dict(base, clause="well-formed", what=probs[0][:48], site=local),
                               f"{rule_name} at node {ni} of {s.printed!r} gave a malformed tree: {probs[0]}"))
+            # a malformed tree is still a tree a rewrite produced: C04 asks for its round trip too
+            # (a stale parent link, for one, changes which parentheses are printed)
+            if trees.size(new_root) <= MAX_NODES:
+                try:
+                    fs.extend(self.round_trip(new_root, f"{rule_name} on {s.printed!r}"))
+                except (RecursionError, AttributeError, TypeError, ValueError):
+                    st["diag.round_trip_of_malformed_tree_failed"] += 1
             self.res.events.append(f"expand {si} {rule_name} {ni} malformed")
             return fs
         if trees.size(new_root) > MAX_NODES:
